@@ -14,6 +14,7 @@ list, XOR-linearity of the division); the only enumerations are the 256 table ro
 256 values of the byte shifted out of the register, and the 111 distances of a double error.
 -/
 import Rs1090.Proofs.CrcIcao
+import Rs1090.Gen.CrcGate
 namespace Rs1090.Props.C02
 open Rs1090 Rs1090.Spec.Crc Rs1090.Model Rs1090.Model.Message Rs1090.Proofs.Crc
 
@@ -118,6 +119,32 @@ theorem df17_gate (frame : List Nat) (hl : frame.length = 14) (hb : Bytes frame)
     (hdf : dfField frame = 17) :
     tryFrom frame = if polyMod (bits frame) = 0#24 then wrap (parseDF 0 frame) else .err .assertion :=
   tryFrom_df17 frame hl hb hdf
+
+/-- **The gate in the source text is the gate of the model.**  `Gen.CrcGate` is re-extracted from
+    `Message::from_reader_with_ctx` on every run (which DF is gated, the comparison and its
+    literal, the context handed to the `DF` parser and stored by `IcaoParity`); with *those*
+    definitions the model's `decodeBuf` is: reject with the assertion error iff DF = `GATE_DF` and
+    `gateRejects crc`, else parse with the checksum as context.  Editing the guard in mod.rs
+    (`c > 1`, another DF, an extra conjunct) breaks this theorem or the extractor. -/
+theorem gate_source_ok (b0 : Nat) (buf : List Nat) (crc : Nat)
+    (h : modesChecksum buf (frameBits b0) = .ok crc) :
+    decodeBuf b0 buf =
+      if (b0 >>> 3 == Gen.CrcGate.GATE_DF) && Gen.CrcGate.gateRejects crc then .err .assertion
+      else parseDF (Gen.CrcGate.icaoOfCtx crc) buf := by
+  have hG : Gen.CrcGate.GATE_DF = 17 := rfl
+  have hR : Gen.CrcGate.gateRejects crc = decide (crc > 0) := rfl
+  have hI : Gen.CrcGate.icaoOfCtx crc = crc := rfl
+  rw [hG, hR, hI]
+  unfold decodeBuf
+  rw [h]
+  by_cases hp : b0 >>> 3 = 17 ∧ crc > 0
+  · simp [hp]
+  · have hp' : ¬ (b0 >>> 3 = 17 ∧ 0 < crc) := hp
+    simp only [Bool.and_eq_true, beq_iff_eq, decide_eq_true_eq, gt_iff_lt, hp', ↓reduceIte]
+    rfl
+
+/-- all six address/parity variants (DF 0, 4, 5, 16, 20, 21) receive the checksum unchanged -/
+theorem ap_fields_ok : Gen.CrcGate.AP_FIELDS = 6 := by decide
 
 /-- Only DF 17 is gated: for every other format the remainder never rejects the frame, it is
     handed to the `DF` parser as context. -/
